@@ -3,6 +3,7 @@
   signal kinds.  Only property theorems live here; helpers are in Lcapy/Proofs/Linear.lean.
 -/
 import Lcapy.Proofs.Linear
+import Lcapy.Proofs.LinearN
 import Lcapy.Model.Decompose
 import Lcapy.Spec.Noise
 import Lcapy.Props.C01
@@ -48,7 +49,7 @@ theorem superposition_unique (kind : Kind) (s : K) (cs cs' : List (Cpt K)) (x y 
     (hx : Solves kind s cs x) (hy : Solves kind s cs' y)
     (hz : Solves kind s (List.zipWith Cpt.addSrc cs cs') z)
     (hns : C01.Nonsingular kind s (List.zipWith Cpt.addSrc cs cs')) :
-    ∀ i, i ≠ node 0 → z i = x i + y i :=
+    ∀ i, C01.Unknown kind s (List.zipWith Cpt.addSrc cs cs') i → z i = x i + y i :=
   C01.mna_unique kind s _ z _ hns hz (superposition kind s cs cs' x y hs hx hy)
 
 /-- a killed current source (value 0) is an open circuit: it injects nothing anywhere -/
@@ -154,6 +155,47 @@ theorem noise_cross_term (h1 h2 : K × K) (a b : K) :
       noisePower [[(h1, a)], [(h2, b)]] + 2 * (a * b) * (h1.1 * h2.1 + h1.2 * h2.2) := by
   simp [noisePower, groupSum, normSq]; ring
 end
+
+/-! ### N sources: the response is the sum of the responses to each source acting alone -/
+
+/-- **each_source_alone** (the property's first sentence at full strength): take ANY netlist with any
+    number of components; `alone cs` lists, for every component in turn, the netlist in which only that
+    component keeps its independent quantities (source value / initial conditions) and every other one
+    is zeroed — what `kill_except` builds.  If `xs` are solutions of these single-source circuits, their
+    sum solves the full circuit.  Every analysis kind, every point s, netlists of any size. -/
+theorem each_source_alone (kind : Kind) (s : K) (cs : List (Cpt K)) (xs : List (Ix → K))
+    (hl : xs.length = cs.length)
+    (h : List.Forall₂ (fun a x => Solves kind s a x) (alone cs) xs) :
+    Solves kind s cs (sumX xs) := by
+  intro r hr
+  rw [← sumRes_alone kind s r cs xs hl]
+  have key : ∀ (as : List (List (Cpt K))) (ys : List (Ix → K)),
+      List.Forall₂ (fun a x => Solves kind s a x) as ys → sumRes kind s r as ys = 0 := by
+    intro as ys hf
+    induction hf with
+    | nil => simp [sumRes]
+    | cons hax _ ih => simp [sumRes, hax r hr, ih]
+  exact key _ _ h
+
+/-- … and when the full circuit is non-singular it is THE reported response (C01.mna_unique) -/
+theorem each_source_alone_unique (kind : Kind) (s : K) (cs : List (Cpt K)) (xs : List (Ix → K))
+    (z : Ix → K) (hl : xs.length = cs.length)
+    (h : List.Forall₂ (fun a x => Solves kind s a x) (alone cs) xs)
+    (hz : Solves kind s cs z) (hns : C01.Nonsingular kind s cs) :
+    ∀ i, C01.Unknown kind s cs i → z i = sumX xs i :=
+  C01.mna_unique kind s _ z _ hns hz (each_source_alone kind s cs xs hl h)
+
+/-- the single-source family has one member per component, and in member j exactly component j keeps
+    its sources (the others are `zeroSrc`) -/
+theorem alone_card (cs : List (Cpt K)) : (alone cs).length = cs.length := alone_length cs
+
+/-- non-vacuity: V1 1 0 6; R1 1 2 2; I1 2 0 3 (ground = node 0) at dc — the two single-source
+    solutions (V alone: 6 V at both nodes, −0 A … ; I alone: node 2 at −6 V) and their sum -/
+example :
+    let cs : List (Cpt ℚ) := [.V 1 0 0 6, .R 1 2 2, .I 2 0 3]
+    alone cs = [[.V 1 0 0 6, .R 1 2 2, .I 2 0 0], [.V 1 0 0 0, .R 1 2 2, .I 2 0 0],
+                [.V 1 0 0 0, .R 1 2 2, .I 2 0 3]] := by
+  simp [alone, killAll, Cpt.zeroSrc, Cpt.mapSrc]
 
 /-- non-vacuity: two sinusoids of one frequency plus DC -/
 example : (Lcapy.Decompose.decompose [Lcapy.Decompose.Term.ac (3 : ℚ) 1 0, .dc 2, .ac 3 0 1]).ac = [(3, 1, 1)] := by
